@@ -80,9 +80,15 @@ func c10Gen(tier string, seed int64) []fw.Case {
 	for rep := 0; rep < reps; rep++ {
 		for _, role := range bothRoles {
 			for pi, p := range []wire.Params{{}, {Deflate: true}} {
-				for _, b := range []string{"read", "reader-read", "write", "writer-write", "writer-close", "ping", "read-partial-frame", "reader-read-partial-frame", "read-partial-header"} {
-					for _, pre := range []string{"none", "ping-interleaved", "concurrent-write-completed", "concurrent-read-completed", "earlier-op-cancelled", "ping-queued-behind"} {
+				for _, b := range []string{"read", "reader-read", "write", "writer-write", "writer-close", "ping", "read-partial-frame", "reader-read-partial-frame", "read-partial-header", "read-partial-ping", "read-pong-blocked"} {
+					for _, pre := range []string{"none", "ping-interleaved", "concurrent-write-completed", "concurrent-read-completed", "earlier-op-cancelled", "ping-queued-behind", "write-queued-behind"} {
 						if pre == "ping-queued-behind" && b != "write" && b != "writer-write" && b != "writer-close" {
+							continue
+						}
+						if pre == "write-queued-behind" && b != "writer-write" && b != "writer-close" {
+							continue
+						}
+						if (b == "read-partial-ping" || b == "read-pong-blocked") && pre != "none" && pre != "earlier-op-cancelled" {
 							continue
 						}
 						for hi, how := range []string{"cancel", "deadline"} {
@@ -320,6 +326,9 @@ func c10Blocked(r *fw.R, d c10Desc) {
 	if blocksOnWrite {
 		lib2peer.Capacity = 3000
 	}
+	if d.Blocked == "read-pong-blocked" {
+		lib2peer.Capacity = 40 // a Pong with a 100 byte payload does not fit: the reply blocks in the transport
+	}
 	c, _, peerEnd, err := libConn(d.Role, d.Params, 64, lib2peer, xport.Plan{})
 	if err != nil {
 		r.Violate("C10/attach-failed", err.Error(), "")
@@ -425,6 +434,18 @@ func c10Blocked(r *fw.R, d c10Desc) {
 				}
 			}
 		}()
+	case "read-partial-ping":
+		// a Ping whose payload arrives only in part: the read is blocked inside control frame handling
+		f := peer.Mask(wire.Ping(big[:100])).Bytes()
+		peer.SendBytes(f[:len(f)-60])
+		time.Sleep(2 * time.Millisecond)
+		go func() { _, _, err := c.Read(ctx); res <- err }()
+	case "read-pong-blocked":
+		// the peer pings but does not read: the read is blocked writing the Pong
+		close(stopReading)
+		<-peerReads
+		peer.Send(wire.Ping(big[:100]))
+		go func() { _, _, err := c.Read(ctx); res <- err }()
 	case "read-partial-frame", "reader-read-partial-frame", "read-partial-header":
 		// header and the first payload bytes arrive in ONE transport read, the rest never does
 		f := peer.Mask(wire.Data(wire.OpBinary, true, big[:100])).Bytes()
@@ -498,6 +519,16 @@ func c10Blocked(r *fw.R, d c10Desc) {
 	}
 	// ---- concurrent activity that completes while the call is blocked
 	switch d.Pre {
+	case "write-queued-behind":
+		// another goroutine asks for the next message (and must simply wait) while ours is blocked
+		for i := 0; i < 2; i++ {
+			go func() {
+				qctx, qc := context.WithTimeout(base, 20*time.Second)
+				defer qc()
+				c.Write(qctx, websocket.MessageText, []byte("queued behind the open writer"))
+			}()
+			time.Sleep(time.Millisecond)
+		}
 	case "ping-queued-behind":
 		// other goroutines queue for the frame lock behind the blocked write, with contexts of their own
 		for i := 0; i < 3; i++ {
